@@ -57,3 +57,10 @@ static void ref_init_all(REF_TP_T *tp)
     ref_init_task_T.taskpool = (parsec_taskpool_t *)tp; tree_T_internal_init(NULL, &ref_init_task_T);
     ref_init_task_S.taskpool = (parsec_taskpool_t *)tp; tree_S_internal_init(NULL, &ref_init_task_S);
 }
+
+/* make_key of class c: direct calls (no function pointer read from a table indexed symbolically) */
+static parsec_key_t ref_make_key(const REF_TP_T *tp, int c, const parsec_assignment_t *l)
+{
+    if (c == 0) return __jdf2c_make_key_T((const parsec_taskpool_t *)tp, l);
+    (void)c; return __jdf2c_make_key_S((const parsec_taskpool_t *)tp, l);
+}
